@@ -14,9 +14,36 @@ class RowStream(AlignStream):
     name = 'align_rows'
     weights = dict(realistic=2, blocks=5, dense=5, boundary=1, folding=2, fragment=2)
     quick_n, thorough_n = 6000, 100000
+    prelude = pl.ALIGN_CHECK_C01
 
     def oracle(self, case, out):
         return pl.oracle_valid_row(case, out)
 
 
 STREAMS = [RowStream()]
+
+
+# ---- end to end: every record of every file of every mode, and every candidate real runs built
+from .. import e2e, e2e_streams as es
+
+
+class Files(es.E2EStream):
+    name = 'e2e_files'
+
+    def oracle(self, case, out):
+        errs = es.run_failures(out)
+        refs, qs = es.maps_of(out)
+        for m, fk, r in es.all_records(out):
+            e2e.check_record_matching(r, refs, qs, errs, tag='[mode %s file %s] ' % (m, fk))
+        return errs[:4]
+
+
+class Candidates(es.CandidateStream):
+    name = 'e2e_candidates'
+    prelude = pl.ALIGN_CHECK_C01
+
+    def oracle(self, case, out):
+        return pl.oracle_valid_row(case, out)
+
+
+STREAMS = [RowStream(), Files(), Candidates()]
